@@ -130,7 +130,7 @@ type config struct {
 
 func cmdSet(all bool) map[string]bool {
 	if all {
-		return map[string]bool{"probe": true, "cfail": true, "cout": true}
+		return map[string]bool{"probe": true, "cfail": true, "cout": true, "cpause": true}
 	}
 	return map[string]bool{"probe": true}
 }
@@ -245,6 +245,27 @@ func runScript(root, name string, text []byte, cfg config) (res runResult) {
 				ts.Fatalf("unsupported: ! cout")
 			}
 			fmt.Fprint(ts.Stdout(), "c\n")
+		}
+	}
+	if cfg.Cmds["cpause"] {
+		// cpause lets time pass: background commands that end by themselves have ended when the next line runs
+		cmds["cpause"] = func(ts *testscript.TestScript, neg bool, args []string) {
+			if neg {
+				ts.Fatalf("unsupported: ! cpause")
+			}
+			// until every background command that ends by itself is gone from the process table (hblock never ends)
+			for _, c := range ts.BackgroundCmds() {
+				if len(c.Args) > 0 && filepath.Base(c.Args[0]) == "hblock" || c.Process == nil {
+					continue
+				}
+				for i := 0; i < 4000; i++ {
+					if _, err := os.Stat(fmt.Sprintf("/proc/%d", c.Process.Pid)); err != nil {
+						break
+					}
+					time.Sleep(5 * time.Millisecond)
+				}
+			}
+			time.Sleep(10 * time.Millisecond) // the engine's collector goroutine has returned from Wait by now
 		}
 	}
 	p := testscript.Params{
